@@ -98,6 +98,9 @@ InGeneration(s, t) == \E i \in DOMAIN Stack(s, t) : Stack(s, t)[i].phase = "gen"
 
 HCompile(e, s) ==
   IF e.where2 = "_lambdify_mv" THEN R("ok", s)          \* first call of a symbolic multivector
+  \* the very same source text (function name and body) compiled a second time on one algebra: generated twice, whichever
+  \* path led there (e.g. a nested call that bypasses the cache)
+  ELSE IF e.again /\ Sequential THEN R("V_GenOnce_same_function_compiled_again", s)
   ELSE IF InGeneration(s, e.t) THEN R("ok", s)
   ELSE R("V_GenOnce_compiled_without_a_cache_miss", s)
 
